@@ -272,6 +272,8 @@ def rules(ctx):
                                  "`%s` is passed in the position of parameter `%s` of %s" % (a, cps[pos], callee.name))
 
     schedule_rules(ctx, 'R12.6')
+    from .C11 import energy_loops
+    energy_loops(ctx, 'R12.4')       # the cached / recomputed dE visits every neighbour / term
 
     # ---------------------------------------------------------------- R12.3 / R12.4 / R12.5
     norms = {}
